@@ -199,7 +199,9 @@ def rand_state(rng, types, colors, shape=None, category=None, hmax=7, wmax=7,
         # numpy-integer coordinates, as the library's own reset functions produce them (rng.integers)
         import numpy as np
         y, x = np.int64(y), np.int64(x)
-    return State(grid, Agent(Position(y, x), o, held)), cat
+    agent = Agent(Position(y, x), o, held)
+    agent.grid_object = held  # as pickndrop puts it there (by assignment): the state holds it whatever the constructor does
+    return State(grid, agent), cat
 
 
 def front_of(state):
